@@ -25,9 +25,18 @@ space on the FULL grid, so the statement checked is
         grids.  P is built here from geometry: every fine element is located in its coarse parent by its centroid, the
         coarse basis functions (barycentric coordinates; l/(2|T|) (x - p) for RWG/SNC) are evaluated at the fine dof
         nodes (vertices / centroid / normal flux through the fine edge).  Ladder (reg, sing) = (3,3) -> (6,6) with
-        reference (9,8): D(hi) <= max(1e-10, SLACK_R * (e_coarse + e_fine)) and D(hi) <= max(1e-10, DECAY_R * D(lo)),
-        where e_* are the quadrature-error estimates ||A(hi) - A(ref)|| / ||A_coarse(ref)|| of the two matrices (the
-        fine one measured after applying P).  CALIBRATION: see `res.stats` (c04_nested_*).
+        reference (9,8); with D(o) = ||P_t^T A_fine(o) P_d - A_coarse(o)|| / ||A_coarse(ref)|| and the quadrature-error
+        estimates e_c = ||A_coarse(hi) - A_coarse(ref)||, e_f = ||P_t^T (A_fine(hi) - A_fine(ref)) P_d|| (same
+        normalisation) it is required (floor 1e-10) that
+            D(hi) <= SLACK_R (e_c + e_f)   (SLACK_R = 10),   D(hi) <= CAP_R (= 6e-3, calibrated for the grids of this
+            module),   D(hi) <= DECAY_R D(lo)   (DECAY_R = 0.3).
+        Sparse operators are integrated exactly: P^T A_fine P = A_coarse to 1e-11.
+
+CALIBRATION (this tree, thorough tier, 21 operator x shapeset-pair specialisations, seeds 0 and 1; quick tier seeds
+0-3): (a) 672 cases per seed, worst 6.1e-16 (tolerance 1e-12); (a') 240 cases, worst 5.7e-16; all DP sub-blocks bitwise
+equal; (b) 1344 column checks per seed (and 2304 further random variants off-line) without a mismatch; (c) 49 cases per
+seed, one and two levels: D(3,3) <= 7.7e-2, D(6,6) <= 6.4e-4, D(6,6)/D(3,3) <= 0.085, D(6,6)/(e_c + e_f) <= 0.97;
+prolongation consistent to 9e-16.  Seeded defects give D(6,6)/D(3,3) ~ 1 with D ~ 0.1-0.4.
 
 Non-triviality rule (Appendix C): the support is a proper subset with an interface, or test and trial spaces differ.
 """
@@ -44,7 +53,8 @@ from props.c03_oracle import EDGE_LOCAL, catalogue, dense, mkspace, params, rel
 TOL_CONG = 1e-12
 TOL_T = 1e-13
 SLACK_R = 10.0
-DECAY_R = 0.5
+DECAY_R = 0.3
+CAP_R = 6e-3
 FLOOR_R = 1e-10
 RUNG_LO, RUNG_HI, RUNG_REF = (3, 3), (6, 6), (9, 8)
 
@@ -565,7 +575,7 @@ class _Runner:
         res.case(f"nested/{opk}", nontrivial=True,
                  sample=dict(check="nested", D_lo=D_lo, D_hi=D_hi, D_ref=D_ref, e_coarse=e_c, e_fine=e_f,
                              **{k_: base[k_] for k_ in ("operator", "domain", "dual", "grid", "refinement")}))
-        ok_bound = D_hi <= max(FLOOR_R, SLACK_R * (e_c + e_f))
+        ok_bound = D_hi <= max(FLOOR_R, min(CAP_R, SLACK_R * (e_c + e_f)))
         ok_decay = D_hi <= max(FLOOR_R, DECAY_R * D_lo)
         if not (ok_bound and ok_decay):
             self.cex(f"nested-{opk}",
@@ -653,7 +663,7 @@ def oracle(ctx, deep=False, only=None):
         "c04_nested_cases": run.n["nested"], "c04_nested_D_lo_max": run.nest["D_lo_max"],
         "c04_nested_D_hi_max": run.nest["D_hi_max"], "c04_nested_ratio_max": run.nest["ratio_max"],
         "c04_nested_decay_required": DECAY_R, "c04_nested_D_over_estimate_max": run.nest["D_over_e_max"],
-        "c04_nested_slack_allowed": SLACK_R, "c04_prolongation_inconsistency_max": run.nest["incons_max"],
+        "c04_nested_slack_allowed": SLACK_R, "c04_nested_cap": CAP_R, "c04_prolongation_inconsistency_max": run.nest["incons_max"],
         "c04_oracle_wall_s": round(time.time() - t_start, 1),
     })
     res.notes.append("C04 oracle operators: " + ", ".join(done))
